@@ -57,6 +57,7 @@ type CScenario struct {
 	// meaningful for free-running programs
 	CloseWaits bool            `json:"closewaits,omitempty"`
 	Storm      *Storm          `json:"storm,omitempty"`
+	Chaos      bool            `json:"chaos,omitempty"` // free-running: random delays at the gates
 	Raw        json.RawMessage `json:"-"`
 }
 
@@ -118,7 +119,23 @@ func park(point string) {
 	S.mu.Lock()
 	name, managed := S.procs[id]
 	if !S.active || !managed {
+		chaos := !S.active && managed && R != nil && R.chaos
 		S.mu.Unlock()
+		if chaos {
+			// free-running programs: stretch the windows between the critical sections at random
+			x := time.Now().UnixNano()
+			if (point == "U_ctor" || point == "U_close") && (x/11)%2 == 0 {
+				// user code (a constructor, an instance's Close) that takes its time
+				time.Sleep(time.Duration(500+x%2500) * time.Microsecond)
+				return
+			}
+			switch (x / 7) % 4 {
+			case 0:
+				time.Sleep(time.Duration(x%200) * time.Microsecond)
+			case 1:
+				runtime.Gosched()
+			}
+		}
 		return
 	}
 	p := &parked{name: name, point: point, wake: make(chan struct{})}
@@ -234,6 +251,10 @@ func runThreadOp(th string, o COp) {
 		if o.Op == "pget" {
 			call["sc"] = "prov"
 		}
+	case "gget":
+		tk := o.ident()
+		call["op"], call["t"], call["g"] = "group", tk[0], "g"
+		ret["op"] = "group"
 	case "create":
 		call["name"] = newName
 	case "pclose":
@@ -245,6 +266,8 @@ func runThreadOp(th string, o COp) {
 	switch o.Op {
 	case "pget":
 		cur.scope = "root"
+	case "gget":
+		cur.op = "group"
 	case "create":
 		cur.scope, cur.parent = newName, o.S
 	}
@@ -271,6 +294,18 @@ func runThreadOp(th string, o COp) {
 			ret["err"] = classify(err)
 			if err == nil {
 				ret["res"] = resOf(v)
+			}
+		case "gget":
+			tg := target(o.S)
+			tk := o.ident()
+			vs, err := tg.GetGroup(typeByName(tk[0]), "g")
+			ret["err"] = classify(err)
+			if err == nil {
+				ids := []int{}
+				for _, v := range vs {
+					ids = append(ids, idOf(v))
+				}
+				ret["res"] = M{"k": "inst", "ids": ids, "s": "-"}
 			}
 		case "create":
 			tg := target(o.S)
@@ -403,6 +438,7 @@ func concScenario(sc *CScenario, run int) (orderDrift bool) {
 	R = newRun(&sc.Cfg)
 	R.concurrent = true
 	R.closeWaits = sc.Free && sc.CloseWaits
+	R.chaos = sc.Free && sc.Chaos
 	S = newSched()
 	var cfgRaw struct {
 		Cfg json.RawMessage `json:"cfg"`
